@@ -163,3 +163,18 @@ Theorem C03_put_indoor_humidity_valid :
                     match parser_12a0_short (put_humidity_payload (Some b)) with Ok (HumPct c) => c =? b | _ => false end) (zrange 101 0) = true /\
   payload_ok V_I 0x12A0 (put_humidity_payload None) = true /\ parser_12a0_short (put_humidity_payload None) = Ok HumNone.
 Proof. exact put_indoor_humidity_valid. Qed.
+
+(* ---- the getters with a fixed payload (M_Command.fgetter): get_schedule_version / get_system_language / get_system_time / get_system_mode and the
+   DHW getters for a DHW index 00/01: built, accepted by the regenerated RQ regex of their code, registered under RQ|code ---- *)
+Theorem C03_fixed_getters_valid : forall g i, 0 <= i <= 1 -> exists p, fgetter_payload g i = Some p /\
+  payload_ok V_RQ (fg_code g) p = true /\ registered V_RQ (fg_code g) (fg_name g) = true.
+Proof. exact fixed_getters_valid. Qed.
+(* every index 0..255: what is built is accepted exactly when the getter takes no index or the index is 00/01; refusal is exactly _check_idx's *)
+Theorem C03_fixed_getters_idx : forall g i, 0 <= i < 256 ->
+  match fgetter_payload g i with
+  | Some p => payload_ok V_RQ (fg_code g) p = true <-> (fg_is_dhw g = false \/ i <= 1)
+  | None => fg_is_dhw g = true /\ 15 < i /\ i <> 0xF9 /\ i <> 0xFA /\ i <> 0xFC end.
+Proof. exact fixed_getters_idx. Qed.
+(* ... so get_dhw_mode(dhw_idx=2) is built and rejected: the same root as C03_set_dhw_mode_idx_refuted (one recorded finding) *)
+Theorem C03_dhw_getter_idx_refuted : exists p, fgetter_payload FDhwMode 2 = Some p /\ payload_ok V_RQ (fg_code FDhwMode) p = false.
+Proof. exact dhw_getter_idx_refuted. Qed.
